@@ -24,7 +24,7 @@ Record st := mkst { sx1 : T; sx2 : T; sf1 : T; sf2 : T; sres : T }.
 
 (** One pass through the body of [for(int i = 0; i < Max_Iterations; i++)]:
 <<
-	double x3 = (x1 + x2) / 2.0;
+	double x3 = 0.5 * x1 + 0.5 * x2;      // halved first: the sum of two huge ends of one sign may exceed the largest double
 	double f3 = func(x3);
 	double scale = std::max(fabs(f3), std::max(fabs(f1), fabs(f2)));   // only the ratios of f1, f2, f3 enter
 	double g1 = f1 / scale;  double g2 = f2 / scale;  double g3 = f3 / scale;
@@ -44,7 +44,7 @@ Record st := mkst { sx1 : T; sx2 : T; sf1 : T; sf2 : T; sres : T }.
     Second component: the abscissae evaluated in this pass. *)
 Definition step (f : T -> T) (acc : T) (s : st) : (res (T * how) + st) * list T :=
   let x1 := sx1 s in let x2 := sx2 s in let f1 := sf1 s in let f2 := sf2 s in
-  let x3 := (x1 + x2) / nofZ Ops 2 in
+  let x3 := ndec Ops 1 2 * x1 + ndec Ops 1 2 * x2 in
   let f3 := f x3 in
   let sc := nmax Ops (nabs Ops f3) (nmax Ops (nabs Ops f1) (nabs Ops f2)) in
   let g1 := f1 / sc in let g2 := f2 / sc in let g3 := f3 / sc in
